@@ -15,7 +15,9 @@ from .ip_checks import Sess, exc_name
 from .secret_checks import SALTS, gen_history, render, run_lines
 
 WORDLISTS = [["intentionet", "sea", "lax", "atl"], ["sea", "seattle", "SeaTac"], ["zork", "Zorkmid", "xyzzy"], ["lon", "london", "LONDON-x"],
-             ["mycorp"], ["x.y", "a(b", "p+q"], ["zur", "ZuRich", "uri"], ["göteborg", "Straße"], ["kelvin", "site"]]
+             ["mycorp"], ["x.y", "a(b", "p+q"], ["zur", "ZuRich", "uri"], ["göteborg", "Straße"], ["kelvin", "site"], ["großnetz", "ﬁberlink", "ǰump"], ["rout", "kiwi"]]
+# tokens with compatibility characters that are not sensitive: nothing may normalise them
+COMPAT_TOKENS = ["№5", "½", "x³", "２", "ﬁle", "…", "µs", "Ⅷ", "ｆｕｌｌ", "a\u00a0b", "ª", "ﬃ"]
 VOCAB = ["interface", "description", "router", "bgp", "neighbor", "remote-as", "hostname", "ip", "address", "permit", "deny", "any",
          "vlan", "mtu", "1500", "shutdown", "no", "search", "research", "seal", "relax", "atlas", "location", "version", "15.2",
          "GigabitEthernet0/0", "!", "#", "exit", "set", "system", "host-name", "ntp", "server", "logging", "snmp", "access-list"]
@@ -56,7 +58,12 @@ def gen_word_line(rng, words, reserved):
             else:
                 toks.append(w + rng.choice(["-", ".", "_", ""]) + rand_case(rng, rng.choice(words)))
         elif k < 0.5 and reserved:
-            toks.append(rand_case(rng, rng.choice(reserved)))
+            c = rand_case(rng, rng.choice(reserved))
+            j = rng.random()
+            # a reserved word is kept only as a whole token: with something glued to it the listed word inside must go
+            toks.append(c if j < 0.6 else c + rng.choice(["-backup01", ".lab", "x", "-KIWI7", "2"]) if j < 0.85 else rng.choice(["x", "pre-", "0"]) + c)
+        elif k < 0.58:
+            toks.append(rng.choice(COMPAT_TOKENS))
         else:
             toks.append(rng.choice(VOCAB))
     lead = rng.choice(["", " ", "  ", "\t", "    "])
@@ -128,16 +135,16 @@ def word_hypotheses(w):
 
 def words_scope(res, pid, rng, tier):
     sess, fails = Sess(), []
-    rounds = 18 if tier == "thorough" else 9
+    rounds = 2 * len(WORDLISTS) if tier == "thorough" else len(WORDLISTS) + 3
     plans = []
     for r in range(rounds):
-        words = WORDLISTS[(r // 2 + res.seed) % len(WORDLISTS)]
-        salt = SALTS[(5 * r + res.seed) % len(SALTS)]              # every list meets two different salts in this process
+        words = WORDLISTS[(r + res.seed) % len(WORDLISTS)]         # every list in every run; some lists meet two salts in this process
+        salt = SALTS[(5 * r + res.seed) % len(SALTS)]
         hyp = all(re.fullmatch(r"[g-zG-Z].*[g-zG-Z]|[g-zG-Z]", w) and not re.search(r"[0-9a-fA-F]{6}", w) and not re.search(r"\s", w) for w in words)
         user_res = None
         if r % 3 == 1:
             user_res = [words[0] + "mid", "Core" + words[-1].capitalize(), "unrelatedword"]
-        cfg = fa.FaCfg(salt=salt, words=words, reserved=user_res)
+        cfg = fa.FaCfg(salt=salt, words=words, reserved=user_res, undo=(r % 4 == 2))     # listed words go in an --undo run as well
         t = fa.FaTwin(sess, cfg)
         if t.obj is None:
             continue
@@ -352,7 +359,7 @@ def gen_as_line(rng, nums):
         if k < 0.3:
             toks.append(n)
         elif k < 0.55:
-            toks.append(rng.choice(["(", "[", "as", "AS", "65000:", ":", "x", "-", "remote-as=", "٣", "²"]) + n + rng.choice([")", "]", ":100", ",", ".", "y", "-", "", "٣", "/"]))
+            toks.append(rng.choice(["(", "[", "as", "AS", "65000:", ":", "x", "-", "remote-as=", "٣", "²"]) + n + rng.choice([")", "]", ":100", ",", ".", "y", "-", "", "٣", "/", ".2", ".10", ".65002:100", ". 5", ".x"]))
         elif k < 0.75:
             toks.append(rng.choice(["1", "9", "00", ""]) + n + rng.choice(["0", "5", "", "99"]))     # embedded in a longer digit string
         else:
@@ -393,12 +400,14 @@ def as_scope(res, pid, rng, tier):
             salt = SALTS[(5 * r + res.seed) % len(SALTS)]          # every list meets two different salts in this process
         else:
             salt, nums = edge[r - rounds]
-        cfg = fa.FaCfg(salt=salt, asn=nums)
+        undo = r < rounds and r % 4 == 1        # AS numbers are replaced in an --undo run as well
+        cfg = fa.FaCfg(salt=salt, asn=nums, undo=undo)
         t = fa.FaTwin(sess, cfg)
         if t.obj is None:
             continue
         lines = [gen_as_line(rng, nums) for _ in range(40 if tier == "thorough" else 20)]
-        lines += ["router bgp %s\n" % n for n in nums] + [" neighbor 1.2.3.4 remote-as %s\n" % n for n in nums][:40]
+        lines += ["router bgp %s\n" % n for n in nums] + ([] if undo else [" neighbor 1.2.3.4 remote-as %s\n" % n for n in nums][:40])
+        lines += ["uplink-%s.2 Tunnel%s.10 route-target %s.%s:100\n" % (nums[0], nums[-1], nums[0], nums[-1])]
         long_lines = []
         if r < 3 and len(nums) < 20:
             # very long lines: a listed number straddling offsets 8192 / 16384 (twinned with the model) and 65536 / 131072
@@ -576,7 +585,9 @@ def structure_scope(res, pid, rng, tier):
         odd = ['"\n', '""\n', "'\n", '" "\n', "  ''  \n", "}\n", "];\n", '\\"\n']
         wl = (cfg.words or ["sea"])[0]
         rep = ["hostname %s-core\n" % wl, "hostname %s-core  \n" % wl, "hostname %s-core\t\n" % wl, "hostname %s-core \r\n" % wl, "hostname %s-core\n" % wl]
-        lines = lines[:-1] + odd + rep + [lines[-1]]
+        # a sensitive word on a line with tokens that contain compatibility characters: those tokens are not sensitive items
+        compat = ["description %s link %s uplink\n" % (ct, wl) for ct in COMPAT_TOKENS if len(ct.split()) == 1]   # (NBSP is white space)
+        lines = lines[:-1] + odd + rep + compat + [lines[-1]]
         plain += odd
         text = "".join(lines)
         try:
@@ -603,6 +614,11 @@ def structure_scope(res, pid, rng, tier):
                 fails.append({"kind": "leading or trailing white space of a line changed", "cfg": cfg.describe(), "line": a, "output": b})
             if not ca and a != b:
                 fails.append({"kind": "a blank line changed", "cfg": cfg.describe(), "line": a, "output": b})
+            if (a + "\n") in compat and not cfg.pwd and not cfg.asn:
+                ta, tb = a.split(" "), b.split(" ")
+                if len(ta) != len(tb) or ta[:3] + ta[4:] != tb[:3] + tb[4:]:
+                    fails.append({"kind": "a token that is not a sensitive item changed (line that also holds a sensitive word)", "cfg": cfg.describe(),
+                                  "line": a, "output": b})
             if (a + "\n") in plain:
                 # no sensitive item: tokens carried over verbatim; inner runs may collapse only with secrets/words on
                 if a.split() != b.split():
